@@ -316,7 +316,12 @@ def build():
   from pyvc.runner import Bounded
   return Property(
     'C17', units,
-    bounded=[Bounded('C17/BucketMax/I_bucket_preserved', 'replay/c17_bucket_bounded.py', ['--len', '6'], ['--len', '8'],
+    bounded=[Bounded('C17/native/cache_contracts_cross_check', 'replay/cache_native.py',
+                     ['--sweep', '3', 'no_raise,nonempty_batch,no_empty_entries,is_max,size_exact'],
+                     ['--sweep', '4', 'no_raise,nonempty_batch,no_empty_entries,is_max,size_exact'],
+                     'every sequential store/drain history of length <= 3 (quick) / 4 (thorough) over 2 metrics x 2 timestamps, all seven strategy settings',
+                     "cross-check of the contracts' clauses on the real code by exhaustive short histories (it also stands in when the symbolic engine cannot process a changed function); the clauses themselves are discharged obligations above"),
+             Bounded('C17/BucketMax/I_bucket_preserved', 'replay/c17_bucket_bounded.py', ['--len', '6'], ['--len', '8'],
                      'every history of store / drain_metric operations of length <= 6 (quick) / 8 (thorough) over 3 metrics x 3 timestamps on the real cache with BucketMaxStrategy: after each operation the buckets describe the cache exactly (each metric once, in the bucket of its count), a drain returns a metric of maximal count with a non-empty batch, nothing raises',
                      "preservation of I_bucket by BucketMaxStrategy.store / choose_item: the VCs (ghost positions shifting after list.remove / pop(0)) time out on z3 and cvc5 even at 120 s")],
     trusted_base=['A-ENGINE', 'A-SMT', 'A-GIL', 'A-THREADS', 'A-CLOCK', 'A-LIB(max/sorted/choice/dict models)'],
